@@ -256,12 +256,13 @@ theorem fp2_sqrt_spec {x : Fp2 α} (hx : dom2 dom x) :
     (IsSquare (val2 val x) → val2 val (fp2_sqrt O x) * val2 val (fp2_sqrt O x) = val2 val x) :=
   SqiProofs.GfFp2.fp2_sqrt_spec h hx
 
-/- FULL STATEMENT of the property: "batched inversion equals element-wise inversion" on every batch.
-   False when an entry is zero (`fp2_batched_inv_zero_counterexample`); proved for every length when
-   all entries are non-zero: -/
-theorem fp2_batched_inv_spec_partial (xs : List (Fp2 α)) (hd : ∀ x ∈ xs, dom2 dom x) (hnz : ∀ x ∈ xs, val2 val x ≠ 0) :
-    List.Forall₂ (fun out x => dom2 dom out ∧ val2 val out * val2 val x = 1) (fp2_batched_inv O xs) xs :=
-  SqiProofs.GfFp2.fp2_batched_inv_spec h xs hd hnz
+/-- **batched inversion equals element-wise inversion — FULL statement**: every length, every batch in the domain, zero entries
+    included (`0⁻¹ = 0`, the convention of `fp2_inv`).  Holds since the repair "fix: fp2_batched_inv inverts the non-zero entries of a
+    batch that contains zeros" (zero entries are replaced by one before the product chain and selected back to zero, constant time);
+    before it a single zero entry zeroed the whole batch (witness kept in corpus/C07). -/
+theorem fp2_batched_inv_spec (xs : List (Fp2 α)) (hd : ∀ x ∈ xs, dom2 dom x) :
+    List.Forall₂ (fun out x => dom2 dom out ∧ val2 val out = (val2 val x)⁻¹) (fp2_batched_inv O xs) xs :=
+  SqiProofs.GfFp2.fp2_batched_inv_spec h xs hd
 
 theorem fp2_pow_vartime_spec (x : Fp2 α) (hx : dom2 dom x) (ws : List Nat) (hw : ∀ w ∈ ws, w < 2 ^ 64) :
     dom2 dom (fp2_pow_vartime O x ws) ∧ val2 val (fp2_pow_vartime O x ws) = val2 val x ^ evalWords ws :=
@@ -280,11 +281,11 @@ theorem ref_fp2_is_square_spec {P : RefParams} (hL : IsLevel P) {x : Fp2 Nat} (h
   exact this.mpr (by rw [h0]; exact ⟨0, by simp⟩)
 
 set_option maxRecDepth 100000 in
-/-- counterexample: a batch `[1, 0]` comes back as `[0, 0]`, but element-wise inversion (with the
-    library's own convention `inv 0 = 0`) gives `[1, 0]` -/
-theorem fp2_batched_inv_zero_counterexample :
-    fp2_batched_inv (Ref.ops lvl1) [⟨Ref.fp_set_one lvl1, 0⟩, ⟨0, 0⟩] = [⟨0, 0⟩, ⟨0, 0⟩] ∧
-    [fp2_inv (Ref.ops lvl1) ⟨Ref.fp_set_one lvl1, 0⟩, fp2_inv (Ref.ops lvl1) ⟨0, 0⟩] = [⟨Ref.fp_set_one lvl1, 0⟩, ⟨0, 0⟩] := by
+/-- the former counterexample, now a regression example: the batch `[1, 0]` comes back as `[1, 0]` (before the repair: `[0, 0]`,
+    which is what the product chain alone still returns) -/
+theorem fp2_batched_inv_zero_example :
+    fp2_batched_inv (Ref.ops lvl1) [⟨Ref.fp_set_one lvl1, 0⟩, ⟨0, 0⟩] = [⟨Ref.fp_set_one lvl1, 0⟩, ⟨0, 0⟩] ∧
+    fp2_batched_inv_core (Ref.ops lvl1) [⟨Ref.fp_set_one lvl1, 0⟩, ⟨0, 0⟩] = [⟨0, 0⟩, ⟨0, 0⟩] := by
   decide +kernel
 
 /-- non-vacuity of the GF(p²) hypotheses: the ref record at level 1 satisfies `FpRefines`, a concrete
